@@ -1,7 +1,7 @@
 CONSTANTS
   NK = 3
-  Cap = 0
-  Kind = "idx"
+  Kinds = {"idx", "cache"}
+  Caps = {1, 2, 3}
   MaxOps = 4
 INIT Init
 NEXT Next
